@@ -58,9 +58,10 @@ def run_scenario(sid, timeout=900):
     m = tempfile.mkdtemp(prefix="scn_%s_" % sid, dir=base)
     try:
         os.makedirs(os.path.join(m, "_seed"))
+        os.makedirs(os.path.join(m, "_tmp"))  # demonstrations' temporary directories live and die with the mirror
         os.makedirs(os.path.join(m, "_home"))  # one home per scenario: isoquant keeps a json index of converted annotations there
         for f in os.listdir(front.REPO):
-            if f.startswith(".git") or f == "_seed":
+            if f.startswith(".git") or f in ("_seed", "_tmp", "_home"):
                 continue
             if f == "tests":
                 # copied, not linked: tools write index files (.fai / .gzi / .bai / .db) next to the bundled data they read
@@ -70,7 +71,7 @@ def run_scenario(sid, timeout=900):
         for f in os.listdir(_dir(sid)):
             if f.endswith(".py"):
                 shutil.copy(os.path.join(_dir(sid), f), os.path.join(m, "_seed", f))
-        env = dict(os.environ, HOME=os.path.join(m, "_home"), PYTHONDONTWRITEBYTECODE="1")
+        env = dict(os.environ, HOME=os.path.join(m, "_home"), TMPDIR=os.path.join(m, "_tmp"), PYTHONDONTWRITEBYTECODE="1")
         env.pop("PYTHONPATH", None)
         py = "/venv/bin/python" if os.path.exists("/venv/bin/python") else sys.executable
         try:
